@@ -356,7 +356,7 @@ Proof.
   unfold detect.
   destruct (depth_le_count_any any_cond _ _ _ Hwp) as [H1 H2].
   pose proof (condition_detect_nest (S (S (stmts_count (flats (items en props off p) ++ [exit_st])))) None
-                (items en props off p ++ [IPlain exit_st]) off (pexit + 1) [] Hwp I (Forall_nil _)) as Ecd.
+                (items en props off p ++ [IPlain exit_st]) off (pexit + 1) [] Hwp I (Forall_nil _) (Forall_nil _)) as Ecd.
   rewrite flats_app, trees_app in Ecd. cbn [flats flat_i trees tree_i app] in Ecd. rewrite ?app_nil_r in Ecd.
   rewrite flats_app in H1. cbn [flats flat_i app] in H1. rewrite ?app_nil_r in H1.
   rewrite Ecd by lia. cbn [bind].
